@@ -317,6 +317,22 @@ def designed(rng, t, base, tier):
     t.write_src(r + "/main.etk", [("label", "outer"), jd, ("include", "inc/f.etk"), ("op", "push1", ("lbl", "outer"))])
     t.write_src(r + "/inc/f.etk", [("op", "push1", ("lbl", "outer"))])
     out.append((top, r + "/main.etk", "isolation", "err:UndeclaredLabels(outer)"))
+    # ... also when the including file defines the label only AFTER the directive, at any depth, and when the
+    # included file is otherwise fine
+    top, r = case("iso")
+    t.write_src(r + "/main.etk", [("op", "push1", ("num", 1)), ("include", "inc/f.etk"), ("label", "after"), jd, ("op", "push1", ("lbl", "after"))])
+    t.write_src(r + "/inc/f.etk", [("op", "push1", ("lbl", "after")), ("op", "jump", None)])
+    out.append((top, r + "/main.etk", "isolation", "err:UndeclaredLabels(after)"))
+    top, r = case("iso")
+    t.write_src(r + "/main.etk", [("include", "mid.etk"), ("label", "after"), jd])
+    t.write_src(r + "/mid.etk", [("op", "pc", None), ("include", "inc/f.etk"), ("label", "after"), jd])
+    t.write_src(r + "/inc/f.etk", [("label", "own"), jd, ("push", G.climb([("lbl", "after"), "+", ("lbl", "own")]))])
+    out.append((top, r + "/main.etk", "isolation", "err:UndeclaredLabels(after)"))
+    top, r = case("iso")
+    t.write_src(r + "/main.etk", [("include", "f.etk"), ("include", "g.etk"), ("label", "l2"), jd])
+    t.write_src(r + "/f.etk", [("op", "pc", None)])
+    t.write_src(r + "/g.etk", [("op", "push1", ("lbl", "l2"))])
+    out.append((top, r + "/main.etk", "isolation", "err:UndeclaredLabels(l2)"))
     top, r = case("iso")
     t.write_src(r + "/main.etk", [("include", "inc/f.etk"), ("op", "push1", ("lbl", "inner"))])
     t.write_src(r + "/inc/f.etk", [("label", "inner"), jd])
